@@ -1,0 +1,46 @@
+//go:build verif
+
+package htmldoc
+
+// Contracts for gocv (comment-only; see /verif/DESIGN.md).  No executable code.
+
+// ---- C19: navigation exclusion is a lattice  None < Explicit < Standard < Aggressive ----
+// The three detectors are deterministic functions of the node and of the checker WITHOUT its mode
+// (noread mode: checked by the frame analysis); the link-density cache is a memoisation cache.
+
+//@ func (*exclusionChecker) isTopLevel results (r)
+//@   property C19
+//@   flags pure
+//@   noread mode
+
+//@ func (*exclusionChecker) shouldExcludeExplicit results (r)
+//@   property C19
+//@   flags pure
+//@   noread mode
+
+//@ func (*exclusionChecker) shouldExcludeByPattern results (r)
+//@   property C19
+//@   flags pure
+//@   noread mode
+
+//@ func (*exclusionChecker) shouldExcludeByLinkDensity results (r)
+//@   property C19
+//@   flags pure
+//@   noread mode
+//@   cache linkDensityCache
+
+// the exclusion decision as a function of the mode and of the three mode-independent detector results
+//@ spec func exclF(mode int, isElem bool, e bool, p bool, d bool) bool = isElem && mode != 0 && (e || (mode >= 2 && p) || (mode >= 3 && d))
+
+//@ func (*exclusionChecker) shouldExclude results (r)
+//@   property C19
+//@   ensures lattice: r == exclF(ec.mode, n.Type == html.ElementNode, ec.shouldExcludeExplicit(n), ec.shouldExcludeByPattern(n), ec.shouldExcludeByLinkDensity(n))
+//@   ensures mode_constants: NavigationExclusionNone == 0 && NavigationExclusionExplicit == 1 && NavigationExclusionStandard == 2 && NavigationExclusionAggressive == 3
+//@   ensures checker_unchanged: ec.mode == old(ec.mode) && ec.bodyNode == old(ec.bodyNode) && ec.topLevelWrapper == old(ec.topLevelWrapper)
+
+// stricter modes exclude at least what weaker modes exclude; mode None excludes nothing
+//@ lemma exclude_monotone(m1 int, m2 int, isElem bool, e bool, p bool, d bool)
+//@   property C19
+//@   requires 0 <= m1 && m1 <= m2 && m2 <= 3
+//@   ensures monotone: exclF(m1, isElem, e, p, d) ==> exclF(m2, isElem, e, p, d)
+//@   ensures none_excludes_nothing: !exclF(0, isElem, e, p, d)
